@@ -54,6 +54,40 @@ def realize(x):
     return _realize(x)
 
 
+def concretize_int(x, lo, hi):
+    """solver-forked enumeration of a bounded int by equality tests (exhaustible, unlike realize(),
+    whose model-value nodes CrossHair never counts as exhausted)"""
+    if not _tracing_early():
+        return x
+    for val in range(lo, hi + 1):
+        if x == val:
+            return val
+    raise HarnessError("concretize_int: %r outside [%d, %d]" % (x, lo, hi))
+
+
+def concretize_digits(x, ndigits):
+    """same for a non-negative int below 10**ndigits, one decimal digit at a time (10*ndigits forks at most)"""
+    if not _tracing_early():
+        return x
+    out = 0
+    rest = x
+    for p in range(ndigits - 1, -1, -1):
+        unit = 10 ** p
+        d = concretize_int(rest // unit, 0, 9)
+        out += d * unit
+        rest = rest - d * unit
+    return out
+
+
+def _tracing_early():
+    if _realize is None:
+        return False
+    try:
+        return bool(is_tracing())
+    except Exception:
+        return False
+
+
 class HarnessError(Exception):
     """Raised by harness glue when the *harness*, not the library, is wrong."""
 
